@@ -409,6 +409,10 @@ package evaluator
 //@   loop 2 invariant forall i int :: {arg1(i)} 0 <= i && i < ncalls ==> called(i, "object.(*Env).Set") && arg1(i) == env
 //@   loop 3 invariant forall i int :: {arg1(i)} 0 <= i && i < ncalls ==> called(i, "object.(*Env).Set") && arg1(i) == env
 //@   loop 4 invariant forall i int :: {arg1(i)} 0 <= i && i < ncalls ==> called(i, "object.(*Env).Set") && arg1(i) == env
+//@   loop 3 invariant exists i int :: 0 <= i && i < ncalls && arg2(i) == symhash("\\0") && isT(arg3(i), *object.PanArr) && fresh(arg3(i)) && len(as(arg3(i), *object.PanArr).Elems) >= len(args) && (forall j int :: {as(arg3(i), *object.PanArr).Elems[j]} 0 <= j && j < len(args) ==> as(arg3(i), *object.PanArr).Elems[j] == args[j])
+//@   loop 3 invariant len(args) > 0 ==> (exists i int :: 0 <= i && i < ncalls && arg2(i) == symhash("\\") && arg3(i) == args[0])
+//@   loop 4 invariant exists i int :: 0 <= i && i < ncalls && arg2(i) == symhash("\\0") && isT(arg3(i), *object.PanArr) && fresh(arg3(i)) && len(as(arg3(i), *object.PanArr).Elems) >= len(args) && (forall j int :: {as(arg3(i), *object.PanArr).Elems[j]} 0 <= j && j < len(args) ==> as(arg3(i), *object.PanArr).Elems[j] == args[j])
+//@   loop 4 invariant len(args) > 0 ==> (exists i int :: 0 <= i && i < ncalls && arg2(i) == symhash("\\") && arg3(i) == args[0])
 //
 //@ func evaluator.paddedArgs(args, params) res
 //@   ensures  len(res) == (len(args) >= len(params) ? len(args) : len(params))
